@@ -164,6 +164,9 @@ func c06History(t *testing.T, o *vOut, seed int64, keyTypes []KeyType, idx int) 
 			op := "obtain"
 			if step > 0 {
 				op = []string{"renew", "renew", "compromise", "obtain", "dropcert", "obtainfault", "obtain"}[rng.Intn(7)]
+				if nIss == 2 && rng.Intn(4) == 0 {
+					op = "flip" // the first issuer goes down / comes back: the other one answers meanwhile
+				}
 			}
 			// the key storage holds before the operation (one issuer: the pinned key under reuse)
 			prevKey := ""
@@ -183,6 +186,15 @@ func c06History(t *testing.T, o *vOut, seed int64, keyTypes []KeyType, idx int) 
 			switch op {
 			case "obtain":
 				err = cfg.ObtainCertSync(ctx, subj.given)
+			case "flip":
+				failFirstIssuer = !failFirstIssuer
+				if failFirstIssuer {
+					viss[0].Behave = func(int, []string) error { return fmt.Errorf("verif: first issuer down") }
+				} else {
+					viss[0].Behave = nil
+				}
+				o.Stat("issuer_outage_flips", 1)
+				continue
 			case "dropcert":
 				// certificate and metadata disappear, the private key stays (an administrator's clean-up,
 				// or the state a crash between the stores leaves): the next obtain really issues
@@ -264,6 +276,28 @@ func c06History(t *testing.T, o *vOut, seed int64, keyTypes []KeyType, idx int) 
 			keyHash := c06PubHashOfPriv(priv)
 			if keyHash != vPubHash(leaf.PublicKey) {
 				o.Mon("C06 key-does-not-match-leaf", map[string]any{"seed": seed, "subject": subj.given, "op": op})
+			}
+			if issued && last != nil {
+				// the bundle of THIS issuance lies under the issuer that made it, complete and loadable
+				var by Issuer
+				for _, vi := range viss {
+					if vi.IssuerKey() == last.IssuerID {
+						by = vi
+					}
+				}
+				if by != nil {
+					own, oerr := cfg.loadCertResource(ctx, by, subj.canon)
+					ol := (*x509.Certificate)(nil)
+					if oerr == nil {
+						ol = c06LeafOf(own.CertificatePEM)
+					}
+					switch {
+					case oerr != nil:
+						o.Mon("C06 issued-bundle-not-loadable-under-its-issuer", map[string]any{"seed": seed, "subject": subj.given, "op": op, "issuer": last.IssuerID, "err": oerr.Error(), "history": strings.Join(opsTok, ",")})
+					case ol == nil || ol.SerialNumber.String() != last.Serial:
+						o.Mon("C06 bundle-stored-under-another-issuer", map[string]any{"seed": seed, "subject": subj.given, "op": op, "issuer": last.IssuerID, "history": strings.Join(opsTok, ",")})
+					}
+				}
 			}
 			if issued && last != nil && last.PubHash != keyHash {
 				o.Mon("C06 stored-key-is-not-the-csr-key", map[string]any{"seed": seed, "subject": subj.given, "op": op})
